@@ -179,7 +179,7 @@ def sharing_sequences(arity: int) -> list[tuple[str, list]]:
     # and the same string once as IRI and once as blank node label
     lx, ly = sstr(Atom("eq.lex")), sstr(Atom("eq.lex2"))
     dta, dtb = sstr(Atom("EQA.dt")), sstr(Atom("EQB.dt"))
-    objs = [("lit", lx, None, None), ("lit", lx, None, dta), ("lit", lx, None, dtb), ("lit", lx, "en", None), ("lit", lx, "fr", None), ("lit", ly, "fr", None), ("lit", ly, None, dtb), ("lit", lx, None, dtb), ("lit", lx, None, None)]
+    objs = [("lit", lx, None, None), ("lit", lx, None, dta), ("lit", lx, None, dtb), ("lit", lx, "en", None), ("lit", lx, "fr", None), ("lit", ly, "fr", None), ("lit", ly, None, dtb), ("lit", lx, None, dtb), ("lit", lx, None, None), ("lit", lx, None, P.XSD_STRING), ("lit", lx, None, None), ("lit", lx, None, dta)]
     eqseq = []
     for o in objs:
         st = base("eq", arity)
